@@ -22,6 +22,7 @@ var checks = map[string]func(*Report){
 	"C16": runC16,
 	"C17": runC17,
 	"C12": runC12,
+	"C18": runC18,
 	"C19": runC19,
 	"C20": runC20,
 	"C13": runC13,
